@@ -991,7 +991,14 @@ class CallMixin:
         base_len = len(states[0].pc)
         normals, raises = [], []
         saved_obls = len(self.obls)
-        for s2, v in self.eval(states[0], e.elt):
+        # the element index is a term at which quantified assumptions are instantiated while the
+        # element expression is evaluated (its obligations are about `the k-th element`)
+        self.extra_inst_terms.insert(0, k)
+        try:
+            elt_outcomes = list(self.eval(states[0], e.elt))
+        finally:
+            self.extra_inst_terms.remove(k)
+        for s2, v in elt_outcomes:
             extra = z3.And(list(s2.pc[base_len:])) if len(s2.pc) > base_len else z3.BoolVal(True)
             if normal(s2):
                 normals.append((extra, self.need_value(v), s2))
@@ -1021,8 +1028,10 @@ class CallMixin:
         ok = st.copy()
         res = fresh(rty, 'comp')
         ok.assume(z3.Length(res.t) == src.length)
-        ok.assume(z3.ForAll([i], z3.Implies(z3.And(i >= 0, i < src.length),
-                                             z3.And(at(ncond, i), snth(ety, res.t, i) == at(box(nval), i)))))
+        # (a fact, not an assumption: it defines the fresh sequence `res`; the quantifier-free proof
+        # variants keep facts and drop quantified assumptions)
+        ok.fact(z3.ForAll([i], z3.Implies(z3.And(i >= 0, i < src.length),
+                                           z3.And(at(ncond, i), snth(ety, res.t, i) == at(box(nval), i)))))
         for f in nst.facts:
             ok.fact(f) if not contains_const(f, k) else None
         ok.mark('comp-ok')
